@@ -10,6 +10,7 @@ import Mathlib.Algebra.Order.Ring.Rat
 import Mathlib.Data.List.Rotate
 import Mathlib.Algebra.BigOperators.Ring.List
 import Mathlib.Algebra.Order.BigOperators.Group.List
+import Mathlib.MeasureTheory.Measure.Lebesgue.Basic
 
 /-!
 # C17 — voxel area, centroid and volume are exact and independent of vertex order; grid volume is the sum;
@@ -642,9 +643,11 @@ theorem lookup_leaves_table (cum : List α) (hs : SortedTable cum) (hn : 1 ≤ c
 /-- a clamped lookup (the proposed fix) stays inside the triangle table for every table, total and `u` -/
 theorem lookup_clamped_in_range (st : Bool) (cum : List α) (hn : 1 ≤ cum.length) (total u : α) :
     0 ≤ lookup st true cum total u ∧ lookup st true cum total u < (cum.length : Int) := by
-  have := findIndex_ge cum ((if st = true then total else cum.getD (cum.length - 1) 0) * u)
+  have key : ∀ i n : Int, -1 ≤ i → 1 ≤ n →
+      0 ≤ (if i + 1 ≥ n then n - 1 else i + 1) ∧ (if i + 1 ≥ n then n - 1 else i + 1) < n := by
+    intro i n h1 h2; split_ifs <;> constructor <;> omega
   simp only [lookup, if_true]
-  split_ifs <;> constructor <;> omega
+  exact key _ _ (findIndex_ge _ _) (by exact_mod_cast hn)
 
 /-- what holds of the lookup **as generated from the current source**: inside the table whenever the table ends
 at the total area; and unconditionally once the source clamps the index (`Gen.pickClamped`) -/
@@ -685,10 +688,12 @@ theorem meanOf_eq (f : α → α → α) (ss : List (Nat × (α × α))) (n : Na
 theorem estimate_const (c : α) (ss : List (Nat × (α × α))) (n : Nat) (hn : 0 < n) (hl : ss.length = n) :
     meanOf (fun _ _ => c) ss n = c := by
   rw [meanOf_eq]
-  have : (ss.map fun _ => c).sum = (n : α) * c := by
-    rw [← hl]; induction ss with
+  have key : ∀ l : List (Nat × (α × α)), (l.map fun _ => c).sum = (l.length : α) * c := by
+    intro l
+    induction l with
     | nil => simp
-    | cons x xs ih => simp [List.sum_cons] at ih ⊢; rw [ih]; ring
+    | cons x xs ih => simp only [List.map_cons, List.sum_cons, ih, List.length_cons]; push_cast; ring
+  have : (ss.map fun _ => c).sum = (n : α) * c := by rw [key, hl]
   rw [this]
   have : (n : α) ≠ 0 := by exact_mod_cast hn.ne'
   field_simp
@@ -706,22 +711,37 @@ theorem estimate_linear (a b : α) (f g : α → α → α) (ss : List (Nat × (
 
 /-- one pass of the loop returns an index inside the triangle table and the `point_triangle` image of that
 triangle's vertices -/
+theorem finishDraw_ok (sqrt : α → α) (verts : List (α × α)) (tris : List (Nat × Nat × Nat)) (ti : Int)
+    (u1 u2 : α) (r us' : List α) (s : Nat × (α × α))
+    (h : finishDraw sqrt verts tris ti u1 u2 r = .ok (s, us')) :
+    ∃ t, tris[s.1]? = some t ∧
+      s.2 = samplePoint sqrt (vtx verts t.1) (vtx verts t.2.1) (vtx verts t.2.2) u1 u2 := by
+  unfold finishDraw at h
+  split_ifs at h with hr
+  split at h
+  · rename_i t ht
+    simp only [Except.ok.injEq, Prod.mk.injEq] at h
+    refine ⟨t, ?_, ?_⟩
+    · rw [← h.1]; exact ht
+    · rw [← h.1]
+  · cases h
+
 theorem drawOne_ok (sqrt : α → α) (verts : List (α × α)) (tris : List (Nat × Nat × Nat)) (cum : List α)
     (total : α) (us us' : List α) (s : Nat × (α × α))
     (h : drawOne sqrt verts tris cum total us = .ok (s, us')) :
     ∃ t u1 u2, tris[s.1]? = some t ∧
       s.2 = samplePoint sqrt (vtx verts t.1) (vtx verts t.2.1) (vtx verts t.2.2) u1 u2 := by
   unfold drawOne at h
-  split at h
-  · cases h
-  · rename_i ti us1 hp
-    split_ifs at h with hr
-    split at h
-    · rename_i t u1 u2 r ht _
-      simp only [Except.ok.injEq, Prod.mk.injEq] at h
-      refine ⟨t, u1, u2, ?_, ?_⟩
-      · rw [← h.1.1]; exact ht
-      · rw [← h.1.2]
+  split_ifs at h
+  · split at h
+    · rename_i u u1 u2 r
+      obtain ⟨t, h1, h2⟩ := finishDraw_ok sqrt verts tris _ u1 u2 r us' s h
+      exact ⟨t, u1, u2, h1, h2⟩
+    · cases h
+  · split at h
+    · rename_i u1 u2 r
+      obtain ⟨t, h1, h2⟩ := finishDraw_ok sqrt verts tris _ u1 u2 r us' s h
+      exact ⟨t, u1, u2, h1, h2⟩
     · cases h
 
 theorem drawN_ok (sqrt : α → α) (verts : List (α × α)) (tris : List (Nat × Nat × Nat)) (cum : List α)
@@ -774,6 +794,57 @@ theorem emissivity_is_sample_mean (sqrt : α → α) (f : α → α → α) (ver
     · rw [← h1, meanOf_eq]
     · intro c hc; rw [← h1, hc]; exact estimate_const c ss' n hpos l1
 
+/-- the geometric triangle of an index triple of `triangulate2d` -/
+def geo (verts : List (α × α)) (t : Nat × Nat × Nat) : (α × α) × (α × α) × (α × α) :=
+  (vtx verts t.1, vtx verts t.2.1, vtx verts t.2.2)
+
+/-- for a consistently oriented triangulation by diagonals the cumulative table ends exactly at
+`cross_sectional_area` — the fact the code's comment relies on -/
+theorem table_ends_at_total (verts : List (α × α)) (tris : List (Nat × Nat × Nat))
+    (h : Triangulates verts (tris.map (geo verts)))
+    (hor : (∀ T ∈ tris.map (geo verts), tri2 T.1 T.2.1 T.2.2 ≤ 0) ∨
+      (∀ T ∈ tris.map (geo verts), 0 ≤ tri2 T.1 T.2.1 T.2.2)) :
+    (triAreas verts tris).sum = area verts ∧ (∀ a ∈ triAreas verts tris, 0 ≤ a) := by
+  constructor
+  · rw [← triangulation_unsigned verts _ h hor]
+    unfold triAreas
+    rw [List.map_map]
+    congr 1
+    apply List.map_congr_left
+    intro t _
+    simp [geo, triArea_eq]
+  · intro a ha
+    unfold triAreas at ha
+    obtain ⟨t, _, rfl⟩ := List.mem_map.mp ha
+    rw [triArea_eq]; positivity
+
+/-- hence (exact arithmetic) every `u ∈ [0,1)` looks up a triangle of the table: the index is in range -/
+theorem emissivity_index_in_range (verts : List (α × α)) (tris : List (Nat × Nat × Nat))
+    (h : Triangulates verts (tris.map (geo verts)))
+    (hor : (∀ T ∈ tris.map (geo verts), tri2 T.1 T.2.1 T.2.2 ≤ 0) ∨
+      (∀ T ∈ tris.map (geo verts), 0 ≤ tri2 T.1 T.2.1 T.2.2))
+    (hn : 1 ≤ tris.length) (hpos : 0 < area verts) (u : α) (hu : u < 1) :
+    0 ≤ pickTriangle (cumulativeAreas (triAreas verts tris)) (area verts) u ∧
+      pickTriangle (cumulativeAreas (triAreas verts tris)) (area verts) u < (tris.length : Int) := by
+  obtain ⟨hsum, _⟩ := table_ends_at_total verts tris h hor
+  have hl : (triAreas verts tris).length = tris.length := by simp [triAreas]
+  have := pickTriangle_in_range (triAreas verts tris) (by omega) (area verts) hsum.symm hpos u hu
+  rwa [hl] at this
+
+/-- mixture of per-triangle means with weights `a_j / total` is the integral over all triangles divided by the
+total area: with the selection probabilities of `pick_triangle_measure` and uniform sampling inside each
+triangle, the expectation of one sample is the area-mean.  (Partial: uniformity of `point_triangle` within a
+triangle and the identification of `I_j` with `∫_{T_j} f` are not formalised.) -/
+theorem unbiased_partial (total : α) (aI : List (α × α)) (ha : ∀ p ∈ aI, 0 < p.1) (ht : total ≠ 0) :
+    (aI.map fun p => p.1 / total * (p.2 / p.1)).sum = (aI.map fun p => p.2).sum / total := by
+  induction aI with
+  | nil => simp
+  | cons x xs ih =>
+    have hx : x.1 ≠ 0 := (ha x (by simp)).ne'
+    simp only [List.map_cons, List.sum_cons]
+    rw [ih (fun p hp => ha p (by simp [hp]))]
+    field_simp
+
 /-! ## non-vacuity and the float-gap witness (over ℚ) -/
 
 /-- an L-shaped hexagon: area 3, same for every rotation and for the reversed listing -/
@@ -796,5 +867,30 @@ to index 3 = `num_triangles`, outside the table of 3 triangles -/
 theorem lookup_out_of_range_witness :
     lookup true false ([1, 3, 399 / 100] : List ℚ) 4 (999 / 1000) = 3 ∧ (999 / 1000 : ℚ) < 1 := by
   norm_num [lookup, findIndex, bisect]
+
+/-- **probability**: for `u` uniform on `[0,1)` (Lebesgue measure on ℝ) triangle `j` is chosen with probability
+`area_j / total` -/
+theorem pick_probability (as : List ℝ) (hl : ∀ a ∈ as, 0 ≤ a) (hn : 2 ≤ as.length) (total : ℝ)
+    (ht : total = as.sum) (hpos : 0 < total) (j : Nat) (hj : j < as.length) :
+    MeasureTheory.volume
+        {u : ℝ | 0 ≤ u ∧ u < 1 ∧ pickTriangleG true false (cumulativeAreas as) total u = (j : Int)}
+      = ENNReal.ofReal (as.getD j 0 / total) := by
+  have hlo : 0 ≤ (as.take j).sum / total :=
+    div_nonneg (List.sum_nonneg (fun x hx => hl x (List.mem_of_mem_take hx))) hpos.le
+  have hhi : (as.take (j + 1)).sum / total ≤ 1 := by
+    rw [div_le_one hpos, ht]
+    have := take_sum_mono as hl (j + 1) as.length (by omega)
+    rwa [List.take_length] at this
+  have hset : {u : ℝ | 0 ≤ u ∧ u < 1 ∧ pickTriangleG true false (cumulativeAreas as) total u = (j : Int)}
+      = Set.Ico ((as.take j).sum / total) ((as.take (j + 1)).sum / total) := by
+    ext u
+    simp only [Set.mem_ofPred_eq, Set.mem_Ico]
+    constructor
+    · rintro ⟨h0, _, hp⟩
+      exact ((pick_triangle_measure as hl hn total ht hpos u h0 j hj).1).mp hp
+    · rintro ⟨h1, h2⟩
+      have h0 : 0 ≤ u := le_trans hlo h1
+      exact ⟨h0, lt_of_lt_of_le h2 hhi, ((pick_triangle_measure as hl hn total ht hpos u h0 j hj).1).mpr ⟨h1, h2⟩⟩
+  rw [hset, Real.volume_Ico, (pick_triangle_measure as hl hn total ht hpos 0 le_rfl j hj).2.1]
 
 end Cherab.Props.C17
